@@ -347,6 +347,18 @@ func (bA *BitArray) ToProto() *kprotobits.BitArray {
 	}
 }
 
+// ValidateBasic checks that the array holds exactly the words its size needs. An array decoded
+// from a peer's message may claim any size next to any number of words.
+func (bA *BitArray) ValidateBasic() error {
+	if bA == nil {
+		return nil
+	}
+	if want := (int(bA.Bits) + 63) / 64; int(bA.Bits) < 0 || len(bA.Elems) != want {
+		return fmt.Errorf("bit array of %d bits has %d words, not %d", bA.Bits, len(bA.Elems), want)
+	}
+	return nil
+}
+
 // FromProto sets a protobuf BitArray to the given pointer.
 func (bA *BitArray) FromProto(protoBitArray *kprotobits.BitArray) {
 	if protoBitArray == nil {
